@@ -42,6 +42,11 @@ func payloads() []payload {
 		{"LOAD_FILE", "oob", false, call("LOAD_FILE", sqlgen.Str("/etc/passwd")), security.PatternOutOfBand, security.SeverityCritical},
 		{"xp_cmdshell", "oob", false, call("xp_cmdshell", sqlgen.Str("dir")), security.PatternOutOfBand, security.SeverityCritical},
 		{"sp_executesql", "oob", false, call("sp_executesql", sqlgen.Str("q")), security.PatternOutOfBand, security.SeverityCritical},
+		// payloads nested in one another's arguments: findings of different severities from one expression
+		{"BENCHMARK(LOAD_FILE)", "oob", false, call("BENCHMARK", sqlgen.Int("1000000"), sqlgen.Func("LOAD_FILE", []sqlgen.X{sqlgen.Str("/etc/passwd")}, sqlgen.FuncOpts{})), security.PatternOutOfBand, security.SeverityCritical},
+		{"SLEEP((xp_cmdshell))", "oob", false, call("SLEEP", sqlgen.Extra(sqlgen.Func("xp_cmdshell", []sqlgen.X{sqlgen.Str("dir")}, sqlgen.FuncOpts{}), 1)), security.PatternOutOfBand, security.SeverityCritical},
+		{"LOAD_FILE(SLEEP)", "time", false, call("LOAD_FILE", sqlgen.Func("SLEEP", []sqlgen.X{sqlgen.Int("5")}, sqlgen.FuncOpts{})), security.PatternTimeBased, security.SeverityHigh},
+		{"f(g(pg_sleep))", "time", false, call("f1", call("f2", sqlgen.Func("pg_sleep", []sqlgen.X{sqlgen.Int("5")}, sqlgen.FuncOpts{}))()), security.PatternTimeBased, security.SeverityHigh},
 	}
 }
 
@@ -200,7 +205,7 @@ func Check() *common.Check {
 	return &common.Check{
 		ID:    "C16",
 		Level: "exploration",
-		Rule: "10 documented payloads (4 tautologies, 3 time-delay calls, 3 dangerous calls) x every expression hole of the model grammar (condition payloads only in the 17 condition holes, each also as operand of AND / OR / NOT and inside redundant parentheses; call payloads in all 49 holes) " +
+		Rule: "14 payloads built from the documented ones (4 tautologies, 3 time-delay calls, 3 dangerous calls, 4 nestings of one call inside the arguments of another) x every expression hole of the model grammar (condition payloads only in the 17 condition holes, each also as operand of AND / OR / NOT and inside redundant parentheses; call payloads in all 49 holes) " +
 			"x 3 layouts (natural, one space everywhere, one lexeme per line with lower-case keywords and CRLF) x 4 severity thresholds x 3 scanner APIs (tree Scan, ScanSQL, the CLI text scanner); thorough adds every payload inside a second level of nesting (hole in hole). " +
 			"Per API the canonical answer is that API's answer for 'SELECT c0 FROM t0 WHERE <payload>'. distinct = distinct (payload, position, wrapper); non-trivial = the tree API reports the payload in the canonical position",
 		Assume: []string{"closure and layout invariance are judged per API against that API's own canonical answer; the documented (class, severity) is demanded from the tree API only (ScanSQL documents no tautology detection)",
